@@ -255,8 +255,8 @@ pub fn run_worker(ctx: &Ctx, rep: &mut Report, chunk: usize, nchunks: usize) {
     let nf = js.iter().filter(|j| matches!(j.ty, Ty::Float(_))).count().max(1) as u64;
     let ni = js.iter().filter(|j| matches!(j.ty, Ty::Int(_))).count().max(1) as u64;
     let per_of = |j: &Job| match j.ty {
-        Ty::Float(_) => ctx.n((300_000 / nf).max(250), (60_000_000 / nf).max(20_000)),
-        Ty::Int(_) => ctx.n((200_000 / ni).max(150), (30_000_000 / ni).max(10_000)),
+        Ty::Float(_) => ctx.n((300_000 / nf).max(250), (6_000_000 / nf).max(4_000)),
+        Ty::Int(_) => ctx.n((200_000 / ni).max(150), (4_000_000 / ni).max(2_000)),
     };
     // work units: a job is split into parts so that builds with few formats still use every worker;
     // each (job, part) has its own generator stream
